@@ -4,6 +4,7 @@ import (
 	"fmt"
 	"strings"
 	"testing"
+	"unicode/utf8"
 
 	"gitee.com/xuesongtao/protoc-go-valid/valid"
 	"pgregory.net/rapid"
@@ -153,6 +154,11 @@ func genC15Message(t *rapid.T) (*ScalarCase, string, string) {
 	c.Rules = []string{item}
 	if rapid.Bool().Draw(t, "neighbour") && c.T.K == "string" && c.Val.S != "" {
 		c.Rules = []string{"noeq=77777|nb", item}
+		if r, _ := utf8.DecodeRuneInString(c.Val.S); safeOpt(string(r)) && r != utf8.RuneError && rapid.Bool().Draw(t, "quotedNeighbour") {
+			// a satisfied rule with quoted options in front (rule list and option list are both split quote-aware): the
+			// message of the rule behind it shows as written
+			c.Rules = []string{"include=('zz,q'/'" + string(r) + "')|nb2", item}
+		}
 	}
 	c.Carrier = rapid.SampledFrom(Carriers).Draw(t, "carrier")
 	if c.Carrier == "mapiface" {
